@@ -130,6 +130,47 @@ pub fn sweep(texts: &[String], file: u32, a: &ide::Analysis) -> String {
             ck.check("semantic-highlight", file, h.range, true);
         }
     }
+    // range-limited highlights: range edges on token boundaries and strictly inside tokens
+    {
+        let mut cuts: Vec<u32> = offsets.clone();
+        if let Some(fi) = ck.files[file as usize].as_ref() {
+            for (s, e) in &fi.token_ranges {
+                if e - s >= 2 {
+                    let mut m = s + 1;
+                    while m < *e && !text.is_char_boundary(m as usize) {
+                        m += 1;
+                    }
+                    if m < *e {
+                        cuts.push(m);
+                    }
+                }
+            }
+        }
+        cuts.sort();
+        cuts.dedup();
+        let n = cuts.len();
+        let len = text.len() as u32;
+        let mut ranges: Vec<(u32, u32)> = Vec::new();
+        for i in 0..n {
+            for k in 1..=3 {
+                if i + k < n {
+                    ranges.push((cuts[i], cuts[i + k]));
+                }
+            }
+            if i % 4 == 0 {
+                ranges.push((0, cuts[i]));
+                ranges.push((cuts[i], len));
+            }
+        }
+        for (s, e) in ranges {
+            let r = TextRange::new(TextSize::from(s), TextSize::from(e));
+            if let Some(Ok(hs)) = guarded!("semantic-range", s, a.syntax_highlight(fid, Some(r))) {
+                for h in hs {
+                    ck.check("semantic-highlight-range", file, h.range, true);
+                }
+            }
+        }
+    }
     let _ = guarded!("syntax_tree", 0, a.syntax_tree(fid));
     for &o in &offsets {
         let pos = FilePos::new(fid, TextSize::from(o));
